@@ -84,6 +84,8 @@ fn idle_lines() -> Vec<&'static str> {
         "PRINT FNA(1)", "PRINT FNA(\"s\")", "PRINT FNB(\"s\")", "PRINT FNB(1)", "RUN", "CONT", "GOTO 30", "GOTO 5",
         "PRINT B(1)", "PRINT C$(1,1)", "PRINT D(1,1,1)", "PRINT E(1,1,1,1)", "DIM F(99)", "DIM G$(9,9)",
         "DIM H(4294967295,4294967295)", "READ A(1)", "READ A$(1)", "INPUT X", "IF 1 THEN PRINT 1/0", "IF 0 THEN PRINT 1 ELSE RETURN", "PRINT ((1/0))", "9 IF X=0 THEN PRINT (1/X)", "GOTO 9",
+        // reads of names nothing was ever stored under
+        "PRINT Q$;Q;R$(1)", "Q$=P$",
     ]
 }
 
@@ -366,7 +368,12 @@ pub fn run(thorough: bool) -> Report {
     let mut rep = Report::new("C16", "model_checking");
     let alpha = alphabet();
     let depth = if thorough { 5 } else { 4 };
-    let mk = || Sess::new();
+    // runtime warnings on: what the warning paths store is state too
+    let mk = || {
+        let mut s = Sess::new();
+        s.it.enable_warnings = true;
+        s
+    };
     let roots = vec![
         vec![],
         vec![
